@@ -90,7 +90,7 @@ ares_status_t ares_append_ai_node(int aftype, unsigned short port,
     node->ai_family  = AF_INET;
     node->ai_addrlen = sizeof(*sin);
     node->ai_addr    = (struct sockaddr *)sin;
-    node->ai_ttl     = (int)ttl;
+    node->ai_ttl     = ARES_TTL_TO_INT(ttl);
   }
 
   if (aftype == AF_INET6) {
@@ -108,7 +108,7 @@ ares_status_t ares_append_ai_node(int aftype, unsigned short port,
     node->ai_family  = AF_INET6;
     node->ai_addrlen = sizeof(*sin6);
     node->ai_addr    = (struct sockaddr *)sin6;
-    node->ai_ttl     = (int)ttl;
+    node->ai_ttl     = ARES_TTL_TO_INT(ttl);
   }
 
   return ARES_SUCCESS;
